@@ -144,8 +144,20 @@ def _user_source(ctx):
     R = ctx.R
     prog = ctx.prog
 
-    def immut_checked(func, name):
+    def immut_checked(func, name, depth=0):
         for n in ast.walk(func.node):
+            if isinstance(n, ast.Call) and depth < 3 and any(
+                    isinstance(a, ast.Name) and a.id == name
+                    for a in n.args):
+                # handed to a private validation helper that checks it
+                for g in prog.resolve_call(n, func):
+                    if isinstance(g, Func) and not g.is_ctor_call and \
+                            not g.is_public:
+                        b = prog.bind_args(n, g)
+                        for p2, a in b.items():
+                            if isinstance(a, ast.Name) and a.id == name and \
+                                    immut_checked(g, p2, depth + 1):
+                                return True
             if (isinstance(n, ast.Call) and isinstance(n.func, ast.Name) and
                     n.func.id == 'isinstance' and len(n.args) == 2 and
                     isinstance(n.args[0], ast.Name) and n.args[0].id == name):
